@@ -86,14 +86,16 @@ Proof.
 Qed.
 
 (* ---------------------------------------------------------------- curr_addr *)
-Lemma land_u32 n : n < U32 -> N.land n CtxSeg.U32MAX = n.
+Lemma curr_addr_small m s : SegInv m s -> blen s < U32 -> curr_addr s = N.min (s_base s + blen s) MapModel.U32MAX.
 Proof.
-  intros H. unfold CtxSeg.U32MAX, MapModel.U32MAX. change 0xFFFFFFFF with (N.ones 32). rewrite N.land_ones.
-  apply N.mod_small. exact H.
+  intros HI Hl. unfold curr_addr, sat_add32, CtxSeg.U32MAX, MapModel.U32MAX, MapModel.U32 in *. lia.
 Qed.
 
-Lemma curr_addr_small m s : SegInv m s -> blen s < U32 -> curr_addr s = N.min (s_base s + blen s) MapModel.U32MAX.
-Proof. intros HI Hl. unfold curr_addr, sat_add32. rewrite land_u32 by exact Hl. reflexivity. Qed.
+(* fix 8bb2c3e: the length saturates, so every address inside the buffer is <= curr_addr, also with 2^32 bytes *)
+Lemma curr_addr_covers m s a : SegInv m s -> a < s_base s + blen s -> a <= curr_addr s.
+Proof.
+  intros (H1 & H0 & H2 & _) Ha. unfold curr_addr, sat_add32, CtxSeg.U32MAX, CtxSeg.U32, MapModel.U32MAX, MapModel.U32 in *. lia.
+Qed.
 
 Lemma curr_addr_exact m s : SegInv m s -> blen s < s_max s -> curr_addr s = s_base s + blen s.
 Proof.
@@ -155,9 +157,8 @@ Qed.
 
 Lemma write_alloc dbg st file line col addr data ko kp pa : Inv st -> allocated st addr (len data) -> 0 < len data ->
   (exists s, active st = Active s /\ in_active s addr (len data) /\
-     (write_stmt dbg st file line col addr data ko kp pa
-        = Ret None (set_active st (Active (set_buf s (splice (s_buf s) (addr - s_base s) data))))
-      \/ (write_stmt dbg st file line col addr data ko kp pa = Panic P_write_at_assert /\ blen s = U32)))
+     write_stmt dbg st file line col addr data ko kp pa
+        = Ret None (set_active st (Active (set_buf s (splice (s_buf s) (addr - s_base s) data)))))
   \/ (in_map (output st) addr (len data) /\
       exists m', write_stmt dbg st file line col addr data ko kp pa = Ret None (set_output st m') /\ Rep m' /\
         (forall x, occupied m' x <-> occupied (output st) x) /\ abs m' = d_write (abs (output st)) addr data).
@@ -168,16 +169,10 @@ Proof.
     assert (B1 : (s_base s <=? addr) = true) by lia.
     assert (B2 : (addr - s_base s <? blen s) = true) by lia.
     rewrite B1, B2. cbn [andb orb].
-    destruct (addr <=? curr_addr s) eqn:Ec.
-    + left. destruct (write_at_ok dbg _ s addr data HA) as (W & _); [lia|lia| |].
-      * destruct HA as (H1 & _). lia.
-      * cbv zeta in W. rewrite W. reflexivity.
-    + right. assert (Eb : blen s = U32).
-      { destruct (N.lt_ge_cases (blen s) U32) as [L|L].
-        - rewrite (curr_addr_small _ _ HA L) in Ec. pose proof HA as (H1 & H0 & H2 & _).
-          unfold CtxSeg.U32, MapModel.U32MAX, MapModel.U32 in *. lia.
-        - pose proof HA as (H1 & H0 & H2 & _). unfold CtxSeg.U32 in *. lia. }
-      split; [|exact Eb]. unfold seg_write_at. rewrite B1, Ec. reflexivity.
+    assert (Ec : addr <= curr_addr s) by (apply (curr_addr_covers _ _ _ HA); lia).
+    destruct (write_at_ok dbg _ s addr data HA) as (W & _); [lia|exact Ec| |].
+    + destruct HA as (H1 & _). lia.
+    + cbv zeta in W. rewrite W. reflexivity.
   - right. split; [exact Hin|].
     destruct (put_over_ok dbg (output st) addr data HR Hl Hin) as (m' & E & HR' & Ho & Ea).
     exists m'. split; [|auto].
@@ -212,8 +207,7 @@ Lemma write_alloc_post dbg st file line col addr data ko kp pa : good st -> allo
 Proof.
   intros G Ha Hl.
   destruct (write_alloc dbg st file line col addr data ko kp pa (proj1 G) Ha Hl)
-    as [(s & EA & Hin & [E|(E & _)])|(_ & m' & E & HR' & Ho & _)]; rewrite E; cbn [post].
+    as [(s & EA & Hin & E)|(_ & m' & E & HR' & Ho & _)]; rewrite E; cbn [post].
   - apply splice_good; assumption.
-  - exact (fun f => f).
   - apply output_update_good; assumption.
 Qed.
